@@ -54,6 +54,14 @@ def failOutcome (kind : String) (a b : Int) : Outcome :=
   | "serial" => match nz [a, b] with | [] => .ok | c :: _ => .depsFailed [c]
   | "errdep" => .depsFailed [1]
   | "panicdep" => .depsFailed [1]
+  -- the same failures without any text
+  | "qfatal" => .err (some a)
+  | "qerr" => .err none
+  | "qdeps" => if nz [a, b] = [] then .ok else .depsFailed (nz [a, b])
+  | "qdeep" => if nz [a, b] = [] then .ok else .depsFailed [(Outcome.depsFailed (nz [a, b])).status]
+  | "qserial" => match nz [a, b] with | [] => .ok | c :: _ => .depsFailed [c]
+  | "qerrdep" => .depsFailed [1]
+  | "qpanicdep" => .depsFailed [1]
   | _ => .ok
 
 def outcomeOf (c : Call) : Outcome :=
@@ -156,6 +164,8 @@ def probe (j : Json) : R Json := do
     else
       obj [("how", jstr (howClass c.how)), ("status", Json.num (JsonNumber.fromInt c.status)),
          ("verbose", jbool ((parseBool (if c.verbose then "1" else "0")).getD false)), ("debug", jbool debug),
+         -- the sh helpers show a command's stdout exactly in verbose mode: they read the same effective value
+         ("shShown", jbool ((parseBool (if c.verbose then "1" else "0")).getD false)),
          ("gocmd", jstr gocmd), ("timeout", jint (if c.timeout < 0 then -1 else c.timeout)), ("cwd", jstr dir),
          ("plat", jstr ((fldStr j "host").toOption.getD "")),   -- no -goos: the magefile is built for the host
          ("env", jstr "same"), ("stdin", jstr "same")]
